@@ -53,7 +53,7 @@ Definition qstep (s : qst) (e : event) : option qst :=
       then Some (mkQ (queue s) (ever s) (sched s ++ [j]) (cleared s) (cache s) (inflight s) (snap s) (finished s))
       else None
   | ClearBy j =>
-      if mem j (sched s) && isnone (inflight s)
+      if isnone (inflight s)      (* (j may no longer be in _scheduled_jobs: undeploy() may have replaced it) *)
       then Some (mkQ (queue s) (ever s) (sched s) (j :: cleared s) None None (snap s) (finished s))
       else None
   | Expire => Some (mkQ (queue s) (ever s) (sched s) (cleared s) None (inflight s) (snap s) (finished s))
